@@ -257,7 +257,14 @@ func ExtremesFamily() []Named {
 		&Def{Kind: "struct", Name: "UsesMembers", Fields: []Field{f("a", Simple("NestA")), f("cs", ArrayOf(Simple("NestC"))), f("tail", Simple("int32"))}},
 		&Def{Kind: "struct", Name: "UsesMsgMember", Fields: []Field{f("m", Simple("NestM")), f("tail", Simple("int32"))}},
 		&Def{Kind: "struct", Name: "MsgMemberArr", Fields: []Field{f("ms", ArrayOf(Simple("NestM"))), f("tail", Simple("uint16"))}},
-		&Def{Kind: "message", Name: "MsgMemberOpt", Fields: []Field{mf(1, "m", Simple("NestM")), mf(2, "tail", Simple("int32"))}})
+		&Def{Kind: "message", Name: "MsgMemberOpt", Fields: []Field{mf(1, "m", Simple("NestM")), mf(2, "tail", Simple("int32"))}},
+		// an inline message member with a deprecated field (which a peer may still send), used by name
+		&Def{Kind: "union", Name: "Shape", Branches: []Branch{
+			{Index: 1, Def: &Def{Kind: "message", Name: "Label", Fields: []Field{mf(1, "text", Simple("string")),
+				{Name: "old", Type: Simple("int32"), Index: 2, Deprecated: true, DepMsg: "gone"}, mf(3, "n", Simple("uint8"))}}},
+			{Index: 2, Def: &Def{Kind: "struct", Name: "Dot", Fields: []Field{f("x", Simple("int32"))}}}}},
+		&Def{Kind: "struct", Name: "Caption", Fields: []Field{f("label", Simple("Label")), f("layer", Simple("uint16"))}},
+		&Def{Kind: "struct", Name: "Captions", Fields: []Field{f("labels", ArrayOf(Simple("Label"))), f("layer", Simple("uint16"))}})
 	out = append(out, Named{"extremes/member-types-used-elsewhere", s})
 
 	// structs whose wire size is not a function of their decoded content alone: they hold a
